@@ -102,7 +102,8 @@ def gen_case(rng):
         on = []
     if spec in ("two", "mixed") and not any(c[0] == "k2" for c in rcols):
         on = on[:1]
-    wrap = {"left": rng.random() < 0.25, "right": rng.random() < 0.25}
+    wrap = {"left": rng.random() < 0.25, "right": rng.random() < 0.25, "left_order": rng.random() < 0.2,
+            "right_order": rng.random() < 0.1}
     return {"L": L, "R": R_, "on": on, "jointype": jt, "spec": spec, "also": also, "wrap": wrap}
 
 
@@ -115,6 +116,10 @@ def build(case):
         l = l.extend({"a": "a * 1"})
     if case["wrap"].get("right"):
         r = r.extend({"b": "b * 1"})
+    if case["wrap"].get("left_order"):
+        l = l.order_rows(["a"])  # an interior order_rows, which the builder removes
+    if case["wrap"].get("right_order"):
+        r = r.order_rows(["b"])
     on = case["on"]
     if all(a == b for a, b in on):
         on_arg = [a for a, b in on]
